@@ -66,8 +66,8 @@ def default_state(ctx, db):
                         if v is not None:
                             nn = v
                         continue
-                    ev = it.ev if it.k == 'enter' else it
-                    if it.k == 'leave':
+                    ev = it
+                    if it.k in ('enter', 'leave'):
                         continue
                     if ev.k == 'call' and ev.get('recv') == PTR:
                         c = norm(ev.get('callee') or '')
@@ -102,7 +102,7 @@ def ptr_writers(ctx, db):
             return True
         return False
     found = who(db, pred)
-    check_who(ctx, rid, found, {'cocls::shared_future::init_if_needed', 'cocls::shared_future::shared_future', 'cocls::shared_future::operator='}, 'assignment of shared_future::_ptr')
+    check_who(ctx, rid, found, {'cocls::shared_future::init_if_needed', 'cocls::shared_future::shared_future', 'cocls::shared_future::operator='}, 'assignment of shared_future::_ptr', db=db)
     T = Tracer(db, depth=0)
     for f in db.need('cocls::shared_future::init_if_needed')[:1]:
         bad = None
